@@ -30,6 +30,8 @@ inductive Out where
   | val (x : Nat)
   | stop
   | runtimeError
+  | valueError      -- `Variable._evaluate__`: "Cannot evaluate variable." (the domain is falsy); never produced by `step`,
+                    -- only by shapes of `__iter__`/`__bool__` other than today's (`Model/DomShape.lean`)
   deriving DecidableEq, Repr
 
 /-- one `next()` on a domain cursor -/
